@@ -120,7 +120,7 @@ PROPS = {
     "C19": dict(
         lean_targets=["BB.Props.C19"],
         theorems=["BB.Props.C19.call_total", "BB.Props.C19.passAll_exact", "BB.Props.C19.passOne_exact", "BB.Props.C19.ok_is_direct_call",
-                  "BB.Props.C19.expand_length", "BB.Props.C19.unguarded_panics"],
+                  "BB.Props.C19.expand_length", "BB.Props.C19.unguarded_panics", "BB.Props.C19.passAll_nil_mismatch", "BB.Props.C19.untyped_nil_for_a_type_without_nil_is_an_error"],
         corr=[dict(family="callable", quick=300, thorough=20000, mismatch_is_violation=True,
                    nontrivial=has("variadic", "untyped_nil_arg", "nil_target", "typed_nil_arg", "wrong_length"),
                    rule="callable: generated signatures (arity 0-3, variadic or not, parameter/result types from {int,string,any,error,*int,[]int,map,func,chan,"
